@@ -10,6 +10,9 @@ TRUST = ("Trusted: Go type checker and go/ssa (x/tools v0.29.0), CHA/VTA call gr
 
 # id -> (technique, level text, design ref)   -- only properties whose check exists are listed here
 CLAIMS = {
+    "C04": ("path-sensitive typestate over go/ssa (raw/trimmed result cells refined by Status tests) for every Interface.Optimal wrapper; path-sensitive symbolic check of the relaxation built by maxsat.New (nil-ness of coefficient slice, degree facts); control-dependence check of the projection filter",
+            "Decides on every path that results of the inner solver leave the MaxSAT solver only with the relaxation variables cut off, that a soft constraint's blocking literal gets the degree as coefficient, and that only named variables enter the returned model. Necessary conditions; minimality of the cost is not decided.",
+            "DESIGN.md section 5, C04"),
     "C07": ("whole-program storage-distance (ownership) analysis over go/ssa with the receiver of every extraction method of *explain.Problem protected; error-discipline analysis (error tested before the co-result is dereferenced, propagated as nil+error)",
             "Decides that no store reachable from a MUS / unsat-subset method goes into storage that may belong to the caller's problem (scratch fields and deferred-restore growth excepted) and that sub-extraction errors are checked and propagated. Necessary conditions of \"the caller's problem is left unchanged\" and \"an error is returned instead\"; unsatisfiability and minimality of the result are not decided.",
             "DESIGN.md section 5, C07"),
